@@ -30,6 +30,19 @@ type B struct {
 type C struct {
 	ID int64 `graphql:"id,key"`
 }
+type probeEnum int32
+type probeInner struct {
+	X bool
+	Y *float64
+}
+type probeIn struct {
+	A int64
+	B *string
+	L []probeInner
+	M *probeInner
+	E probeEnum
+}
+
 // P is a mutation payload: a type reachable only from the Mutation root, without a key.
 type P struct {
 	N int64
@@ -444,7 +457,31 @@ func (w *world) build(withMutation bool) (*graphql.Schema, error) {
 		}
 		return out, nil
 	})
+	// bs2: the same objects as bs, by pointer; in the federated world this root
+	// field lives on a service that is not the home of B
+	q.FieldFunc("bs2", func(ctx context.Context) ([]*B, error) {
+		var out []*B
+		for _, i := range w.rootBs {
+			out = append(out, w.bs[i])
+		}
+		return out, nil
+	})
 	q.FieldFunc("n", func() int64 { return 42 })
+	// probe takes one argument of every shape the argument parsers know; only
+	// the "wild" requests of the untrusted-input scenarios select it
+	s.Enum(probeEnum(0), map[string]probeEnum{"ONE": 1, "TWO": 2})
+	q.FieldFunc("probe", func(args struct {
+		S   []int64
+		O   *probeIn
+		F   float64
+		B   bool
+		U   uint8
+		I32 int32
+		Str string
+		P   *int64
+	}) string {
+		return fmt.Sprintf("%v %v %v %v %v %v %q %v", args.S, args.O != nil, args.F, args.B, args.U, args.I32, args.Str, args.P != nil)
+	})
 	q.FieldFunc("ds", func(ctx context.Context) ([]D, error) {
 		if err := w.point(ctx, "Query.ds", 0); err != nil {
 			return nil, err
